@@ -29,16 +29,17 @@ VARIABLES
   nfired,    \* times the wait was resolved
   subscribed,
   created,   \* the creation result as seen by the caller: "p" | "ok" | "err"
+  refused,   \* Tor refused the creating command (ADD_ONION / SETCONF): there is no service, nothing will be uploaded
   devUsed
 
-vars == <<mode, up, replied, early, hostEarly, attempted, confirmed, failed, wait, nfired, subscribed, created, devUsed>>
+vars == <<mode, up, replied, early, hostEarly, attempted, confirmed, failed, wait, nfired, subscribed, created, refused, devUsed>>
 
 Init ==
   /\ mode \in {"first", "all"}
   /\ up = [s \in Svcs |-> [d \in Dirs |-> "none"]]
   /\ replied = FALSE /\ early = {} /\ hostEarly \in BOOLEAN
   /\ attempted = {} /\ confirmed = {} /\ failed = {}
-  /\ wait = "p" /\ nfired = 0 /\ subscribed = TRUE /\ created = "p" /\ devUsed = {}
+  /\ wait = "p" /\ nfired = 0 /\ subscribed = TRUE /\ created = "p" /\ refused = FALSE /\ devUsed = {}
 
 AddrKnown == replied \/ hostEarly      \* the client can attribute HS_DESC events to the service
 
@@ -52,10 +53,18 @@ Keep == UNCHANGED <<wait, nfired, subscribed, created>>
 Reply ==
   /\ ~replied /\ replied' = TRUE
   /\ created' = Created(wait, TRUE)
-  /\ UNCHANGED <<mode, up, early, hostEarly, attempted, confirmed, failed, wait, nfired, subscribed, devUsed>>
+  /\ UNCHANGED <<mode, up, early, hostEarly, attempted, confirmed, failed, wait, nfired, subscribed, refused, devUsed>>
+
+\* Tor refuses the creating command: the creation fails, and - "on success and on failure alike" - the event
+\* subscription goes (nobody will wait for a descriptor of a service that does not exist)
+Refuse ==
+  /\ ~replied /\ replied' = TRUE /\ refused' = TRUE
+  /\ \A d \in Dirs : up["me"][d] = "none"        \* (Tor announces no upload for a service it does not create)
+  /\ created' = "err" /\ subscribed' = FALSE
+  /\ UNCHANGED <<mode, up, early, hostEarly, attempted, confirmed, failed, wait, nfired, devUsed>>
 
 Upload(s, d) ==
-  /\ up[s][d] = "none"
+  /\ up[s][d] = "none" /\ ~(refused /\ s = "me") /\ UNCHANGED refused
   /\ up' = [up EXCEPT ![s][d] = "started"]
   /\ IF subscribed /\ s = "me" /\ AddrKnown
      THEN attempted' = attempted \cup {d} /\ UNCHANGED early
@@ -65,7 +74,7 @@ Upload(s, d) ==
 AllIn(c, f, a) == Cardinality(c) + Cardinality(f) = Cardinality(a)
 
 Uploaded(s, d) ==
-  /\ up[s][d] = "started"
+  /\ up[s][d] = "started" /\ UNCHANGED refused
   /\ up' = [up EXCEPT ![s][d] = "ok"]
   /\ LET mine  == s = "me"
          \* known finding: the event is matched by directory only, so another service's upload counts
@@ -79,7 +88,7 @@ Uploaded(s, d) ==
   /\ UNCHANGED <<mode, replied, early, hostEarly, attempted, failed>>
 
 Failed(s, d) ==
-  /\ up[s][d] = "started"
+  /\ up[s][d] = "started" /\ UNCHANGED refused
   /\ up' = [up EXCEPT ![s][d] = "failed"]
   /\ IF subscribed /\ s = "me" /\ AddrKnown /\ d \in attempted     \* (only a directory whose upload the client saw start counts)
      THEN /\ failed' = failed \cup {d}
@@ -97,7 +106,7 @@ FetchFailed(s, d) ==
   /\ UNCHANGED vars
 
 Next ==
-  \/ Reply
+  \/ Reply \/ Refuse
   \/ \E s \in Svcs, d \in Dirs : Upload(s, d) \/ Uploaded(s, d) \/ Failed(s, d) \/ FetchFailed(s, d)
 
 Spec == Init /\ [][Next]_vars
@@ -118,7 +127,7 @@ Unsubscribed == (wait # "p") => ~subscribed
 \* C15 (progress at quiescence, regular histories): while the wait is pending something is still
 \* outstanding; i.e. it completes as soon as it may and fails as soon as every attempted upload failed
 PendingMeansOutstanding ==
-  Ok((Regular /\ AddrKnown /\ wait = "p") =>
+  Ok((Regular /\ AddrKnown /\ wait = "p" /\ ~refused) =>
         /\ (OwnAnnounced = {} \/ OwnStarted # {})
         /\ (mode = "first" => OwnOk = {}))
 \* C15 (action properties): at the moment of completion in await-all mode nothing is outstanding;
@@ -132,6 +141,8 @@ FailureNeedsFailedUpload == [][(wait = "p" /\ wait' = "err") => OwnFailed' # {}]
 \* events of the other service never decide the outcome
 ForeignInert ==
   [][\A d \in Dirs : (up'["other"] # up["other"] /\ devUsed' = {}) => wait' = wait]_vars
-Creation == created = Created(wait, replied)
+Creation == created = (IF refused THEN "err" ELSE Created(wait, replied))
+\* the subscription is gone after a failure of any kind
+GoneAfterFailure == created = "err" => ~subscribed
 TypeOK == wait \in {"p", "ok", "err"}
 =============================================================================
